@@ -27,6 +27,25 @@ CFGS = {
     # ownerless total into the fees
     "zerolst_q": dict(StartHalted="TRUE", ResumeScales='{"same", "zerolst"}', UnstakeAmts="{}", RewardAmts="{2}", RcvKinds='{"self"}', Returns="{}",
                       MaxBatches="1", MaxN="12", MaxSeq="3", MaxPk="3", MaxTime="0", Principals='{"admin"}', Extras="{}"),
+    # a fee rate of exactly 100 % with a treasury: nothing is left to restake (the transfer of zero is refused by the chain)
+    "fee100_q": dict(FeeRate="100000", TreasuryAddr='"treasury"', UnstakeAmts="{}", RewardAmts="{1, 2, 3}", RcvKinds='{"self"}', Returns="{}", MaxBatches="1",
+                     MaxN="6", MaxSeq="3", MaxPk="3", MaxTime="0", AdminOps="FALSE", Extras="{}"),
+    # the admin changes the batch period while the batch is open
+    "period_q": dict(Extras='{"period"}', RewardAmts="{}", RcvKinds='{"self"}', Returns='{"exact"}', Principals='{"u1"}', MaxTime="7"),
+    # the admin corrects the totals on resume (down / up): the rates posted are those of the NEW totals
+    "resume_q": dict(ResumeScales='{"same", "down", "up"}', UnstakeAmts="{}", RewardAmts="{2}", RcvKinds='{"self"}', Returns="{}", MaxBatches="1",
+                     MaxN="9", MaxSeq="3", MaxPk="3", MaxTime="0", Principals='{"admin"}', Extras="{}"),
+    # IBC faults WHILE the contract holds other money (a returned batch waiting to be withdrawn): an over-sized re-send is
+    # then covered by somebody else's funds instead of being stopped by the bank
+    "ibc_hold_q": dict(Outcomes='{"ok", "err"}', Returns='{"exact"}', UnstakeAmts="{3}", RewardAmts="{}", RcvKinds='{"self"}', MaxBatches="2", MaxN="6",
+                       MaxSeq="3", MaxPk="2", MaxTime="5", Principals='{"admin"}', Extras="{}"),
+    # a redemption rate BELOW one (the admin corrected the staked total downwards): unbond amounts that round to zero or, with
+    # the wrong rounding, eat the whole staked total while LST is still outstanding
+    "downrate_q": dict(ResumeScales='{"same", "down"}', UnstakeAmts="{1, 2}", RewardAmts="{}", RcvKinds='{"self"}', Returns='{"exact"}', MaxBatches="2",
+                       MaxN="6", MaxSeq="3", MaxPk="2", MaxTime="6", Principals='{"admin", "u1"}', Extras="{}"),
+    # forced recovery of packets that are still in flight, then their late callbacks
+    "ibc_force_q": dict(Extras='{"forceinflight"}', Outcomes='{"ok", "err", "timeout"}', Returns="{}", UnstakeAmts="{}", RcvKinds='{"self", "native"}',
+                        RewardAmts="{}", MaxBatches="1", MaxN="6", MaxSeq="4", MaxPk="3", MaxTime="0", Principals='{"admin", "u1"}'),
     # a fee rate above 100 %: every reward must be refused (fee exceeds the reward)
     "fee150_q": dict(FeeRate="150000", UnstakeAmts="{}", RewardAmts="{1, 2, 3}", RcvKinds='{"self"}', Returns="{}", MaxBatches="1",
                      MaxN="6", MaxSeq="3", MaxPk="3", MaxTime="0", AdminOps="FALSE", Extras="{}"),
@@ -52,7 +71,7 @@ CFGS = {
     "ibc_q": dict(Extras='{"stray"}', Outcomes='{"ok", "err", "timeout"}', SubmitFails="{0}", Returns='{"exact"}', UnstakeAmts="{3}", RcvKinds='{"self", "native", "staker"}',
                   RewardAmts="{}", MaxBatches="1", MaxN="6", MaxSeq="4", MaxPk="3", MaxTime="0"),
     # breaker / authorisation: starts halted, every principal tries everything
-    "gate_q": dict(Extras='{"wrongsender", "matrix", "direct"}', StartHalted="TRUE",
+    "gate_q": dict(Extras='{"wrongsender", "matrix", "direct", "upmon", "demonitor"}', StartHalted="TRUE",
                    Principals='{"u1", "admin", "mon1", "admin2", "contract", "hook|channel-1|staker", "hook|channel-1|collector"}', Returns='{"exact"}',
                    MaxN="6", MaxSeq="3", MaxBatches="2", MaxPk="2", TreasuryAddr='"treasury"', RcvKinds='{"self"}', MaxTime="5",
                    ResumeScales='{"same", "zerolst"}'),
